@@ -3744,11 +3744,11 @@ impl GlobalInferenceCtx<'_> {
         }
         assert!(self.inline_comptime_tys.is_empty());
 
+        // The type of each comptime parameter is worked out in an area of its own, which is
+        // thrown away again right after. They used to be worked out in the area of the *caller*
+        // when both were in the same file, and types are remembered per area: a second call in
+        // the same function got the `T` of the first one for `comptime T: type, comptime v: T`.
         let dummy_loc = lambda_loc.make_concrete(None).wrap();
-
-        if lambda_loc.file() != self.loc.file() {
-            self.tys.create_area_if_not_exists(dummy_loc);
-        }
 
         let call_range = self.bodies.range_for_expr(call_expr);
         let call_end = call_range
@@ -3765,7 +3765,8 @@ impl GlobalInferenceCtx<'_> {
                 // inline parameter references are always earlier comptime
                 // parameters. For this reason, this should be safe
                 // TODO: assert that
-                let param_ty = if lambda_loc.file() != self.loc.file() {
+                self.tys.create_area_if_not_exists(dummy_loc);
+                let param_ty = {
                     let mut dummy_env = GlobalInferenceCtx {
                         loc: dummy_loc,
                         world_index: self.world_index,
@@ -3790,12 +3791,11 @@ impl GlobalInferenceCtx<'_> {
                     };
 
                     // the type may be a global that hasn't been inferred yet (`comptime v: MyInt`
-                    // with `MyInt :: i64;` in the other file): this call has to wait for it,
-                    // like it does when both are in the same file
-                    dummy_env.const_ty(param.ty)?
-                } else {
-                    self.const_ty(param.ty)?
+                    // with `MyInt :: i64;` somewhere else): this call has to wait for it
+                    dummy_env.const_ty(param.ty)
                 };
+                self.tys.remove_area(dummy_loc);
+                let param_ty = param_ty?;
 
                 self.inline_comptime_tys.push(param_ty);
                 debug!("  push inline type {}", param_ty.debug(self.interner, true));
@@ -3860,10 +3860,6 @@ impl GlobalInferenceCtx<'_> {
                 assert_eq!(self.inline_comptime_args.len(), comptime_idx + 1);
                 comptime_idx += 1;
             }
-        }
-
-        if lambda_loc.file() != self.loc.file() {
-            self.tys.remove_area(dummy_loc);
         }
 
         if mismatch {
